@@ -242,6 +242,29 @@ PROPS = {
             "A thin wrapper returns what the wrapped method returns; this wrapper returned something else for the same receiver "
             "and arguments (or the regenerated wrapper table no longer satisfies the thinness theorems).",
     },
+    "C20": {
+        "lean_modules": ["TemporalModel.Props.C20"],
+        "suites": ["c20"],
+        "level_text": "Proof over the lock-and-cache state machine (Model/Shared.lean: a call locks the provider, looks zones up "
+                      "through the cache, answers from what it got, unlocks; a call may panic while it holds the lock; an "
+                      "execution is an interleaving of the threads' call sequences): C20_history_independent (after ANY history - "
+                      "other threads' calls in any order, cold or warm cache, failed and panicking calls - every call observes what "
+                      "it would observe alone on a fresh provider), C20_interleaving_independent (two interleavings of the same "
+                      "per-thread sequences give every thread the same observations), C20_progress (one lock, taken once per call: "
+                      "every history runs to its end), C20_survives_panic, and C20_strict_lock_fails_after_panic (the behaviour of "
+                      "the plain Mutex before the fix, for the record). Tie: 2-16 real threads released by a barrier issue mixed "
+                      "convenience calls over 16 zones, each result compared with the *_with_provider twin on a fresh provider; "
+                      "histories with an unknown zone, an out-of-range value and a panic injected while the provider lock is held "
+                      "(verif_hooks::panic_holding_tz_provider), followed by ordinary calls; the whole suite runs under a watchdog "
+                      "(a deadlock shows as `timeout`).",
+        "level_note": "Trusted: Lean kernel (+propext, Classical.choice, Quot.sound); the state-machine abstraction: atomicity of a "
+                      "call under std::sync::Mutex and the absence of data races are Rust's guarantees (the provider is !Sync and "
+                      "only reachable through the mutex), not modelled; thread schedules are whatever the OS produces in the run "
+                      "(the theorem, not the run, covers all interleavings).",
+        "why_difference_is_violation":
+            "Every call on the shared provider must observe what the same call observes alone (C20_history_independent); this "
+            "concurrent or post-failure call returned something else, panicked, or never returned.",
+    },
     "C17": {
         "lean_modules": ["TemporalModel.Props.C17"],
         "suites": ["c17"],
